@@ -234,7 +234,8 @@ def run(tla_path: str, cfg_path: str | None = None, *, workers: int | str = 16, 
     d = os.path.dirname(os.path.abspath(tla_path))
     mod = os.path.basename(tla_path)
     meta = workdir(tag + "-meta")
-    jopts = [f"-Xmx{heap}", "-XX:+UseParallelGC", f"-DTLA-Library={LIB}{os.pathsep}{SPEC}"]
+    # TLC unpacks its standard modules into java.io.tmpdir on every start: keep that inside the (removed) meta directory, not in /tmp
+    jopts = [f"-Xmx{heap}", "-XX:+UseParallelGC", f"-DTLA-Library={LIB}{os.pathsep}{SPEC}", f"-Djava.io.tmpdir={meta}"]
     if dfs_queue:
         jopts.append("-Dtlc2.tool.queue.IStateQueue=StateDeque")
     cmd = ["java", *jopts, "-cp", JAR, "tlc2.TLC", "-metadir", meta, "-noGenerateSpecTE",
